@@ -57,3 +57,63 @@ class AbsSet:
         """z3 Bool for use in specifications."""
         t = self.member_term(x)
         return z3.BoolVal(False) if t is None else t
+
+
+class HavocState:
+    """A module-level object that some function of the package mutates: its content at the time of a call is unknown
+    (it depends on the history of the process), so every observation of it is an unconstrained value."""
+    def __init__(self, name):
+        self.name = name
+        self._n = 0
+        self._memo = {}
+
+    def __repr__(self):
+        return f'<module-level state {self.name}: unknown content>'
+
+    def _fresh(self, tag):
+        self._n += 1
+        return z3.Bool(f'{self.name}.{tag}!{self._n}')
+
+    def sym_contains(self, ex, x):
+        x = ex.concretize(x)
+        key = x.t.sexpr() if isinstance(x, Sym) else repr(x)
+        if key not in self._memo:
+            self._memo[key] = self._fresh('has')
+        return mk_bool(self._memo[key])
+
+    def sym_getitem(self, ex, k):
+        from .symex import PyRaise, make_exc, Opaque
+        if ex.branch(self._fresh('hit'), tag='havoc-hit'):
+            return Opaque(f'{self.name}[?]')
+        raise PyRaise(make_exc('KeyError', 'key'))
+
+    def sym_setitem(self, ex, k, v):
+        self._memo.clear()
+
+    def sym_delitem(self, ex, k):
+        self._memo.clear()
+
+    def sym_len(self, ex):
+        self._n += 1
+        n = z3.Int(f'{self.name}.len!{self._n}')
+        ex.assume(n >= 0)
+        return mk_int(n)
+
+    def truth(self, ex):
+        return ex.branch(self._fresh('nonempty'), tag='havoc-truth')
+
+    def sym_method(self, ex, name):
+        from .symex import BoundBuiltin, Opaque
+        if name in ('add', 'discard', 'remove', 'update', 'clear', 'append', 'extend', 'insert', 'sort', 'reverse'):
+            def mut(ex, me, *a, **k):
+                me._memo.clear()
+            return BoundBuiltin(f'{self.name}.{name}', mut, self)
+        if name in ('get', 'pop', 'setdefault'):
+            def get(ex, me, k, default=None):
+                if name != 'get':
+                    me._memo.clear()
+                if ex.branch(me._fresh('hit'), tag='havoc-hit'):
+                    return Opaque(f'{me.name}[?]')
+                return default
+            return BoundBuiltin(f'{self.name}.{name}', get, self)
+        return None
